@@ -40,6 +40,7 @@ type dscenario struct {
 	key         string
 	nsxExtra    bool // NSX: foreign (non-Netspoc) objects on the manager
 	procEnv     []string // production-stack runs: extra environment of the process
+	prepNoop    bool     // IOS: the preparation commands change nothing (settings already there), so 'reload in' does not ask to save
 }
 
 func (sc *dscenario) dn() string {
@@ -92,14 +93,26 @@ func (sc *dscenario) secretKey() string {
 type runOpts struct {
 	dev     map[int]string
 	banners map[int]sim.BannerSpec
+	keepWork bool   // do not recreate the base directory
+	testTime string // TEST_TIME of the run ("" = the fixed default)
 }
 
 // runDialogue executes the scenario once, with the given deviations.
 func runDialogue(scr *core.Scratch, sc *dscenario, o runOpts) *drun {
 	work := filepath.Join(scr.Dir, "dlg")
-	code := prepareWork(work, sc, 1)
+	var code string
+	if o.keepWork {
+		// a further run in the base directory of the previous one (status,
+		// history and logs stay)
+		code = filepath.Join(work, "policies", "p1", "code")
+	} else {
+		code = prepareWork(work, sc, 1)
+	}
 	os.Setenv("HOME", work)
 	os.Setenv("TEST_TIME", "2024-Sep-29 16:19:50")
+	if o.testTime != "" {
+		os.Setenv("TEST_TIME", o.testTime)
+	}
 	os.Unsetenv("LANG")
 
 	host := sc.hostname
@@ -114,7 +127,7 @@ func runDialogue(scr *core.Scratch, sc *dscenario, o runOpts) *drun {
 		flavor := strings.ToLower(sc.devType)
 		ssh = &sim.SSH{Flavor: flavor, Hostname: host, Banner: sc.banner, Pass: sc.secretPass(),
 			Cisco: ciscomodel.Load(sc.device, sc.devType == "IOS"), Dev: o.dev, Banners: o.banners,
-			NeedEnable: sc.needEnable, HostKeyQ: sc.hostKeyQ}
+			NeedEnable: sc.needEnable, HostKeyQ: sc.hostKeyQ, PrepNoop: sc.prepNoop}
 		r.before = ssh.Cisco.Print()
 	case "Linux":
 		lm, err := linuxmodel.Load(sc.device)
@@ -183,6 +196,12 @@ func runDialogue(scr *core.Scratch, sc *dscenario, o runOpts) *drun {
 	case "do-compare":
 		mainFunc = doapprove.Main
 		os.Args = []string{"do-approve", "compare", sc.dn()}
+	case "do-approve-brief":
+		mainFunc = doapprove.Main
+		os.Args = []string{"do-approve", "--brief", "approve", sc.dn()}
+	case "do-compare-brief":
+		mainFunc = doapprove.Main
+		os.Args = []string{"do-approve", "--brief", "compare", sc.dn()}
 	default:
 		panic("unknown front end " + sc.front)
 	}
